@@ -322,7 +322,15 @@ def funnel_rule(repo: Repo, rep: Report, rid: str) -> None:
     fi = repo.func("cstruct.py", "cstruct.read")
     r = rets(fi)
     n += 1
-    rep.check(len(r) == 1 and norm(r[0].value) == f"{fi.self_name}.resolve({fi.params[1]}).read({fi.params[2]})", rid, f"{fi.key}:return",
+    from ..util import resolve_local as _rl
+
+    shown = norm(r[0].value) if len(r) == 1 else ""
+    if len(r) == 1 and isinstance(r[0].value, ast.Call) and isinstance(r[0].value.func, ast.Attribute) and isinstance(r[0].value.func.value, ast.Name):
+        # the resolved type held in a local first
+        src = _rl(fi.node, r[0].value.func.value)
+        if src is not None and not isinstance(src, ast.Name):
+            shown = f"{norm(src)}.{r[0].value.func.attr}({', '.join(norm(a) for a in r[0].value.args)})"
+    rep.check(len(r) == 1 and shown == f"{fi.self_name}.resolve({fi.params[1]}).read({fi.params[2]})", rid, f"{fi.key}:return",
               "self.resolve(name).read(stream)", f"cstruct.read returns '{short(r[0].value if r else None, 60)}'", fi.loc())
     # metaclass __call__
     fi = repo.func("types/base.py", "MetaType.__call__")
